@@ -214,10 +214,36 @@ theorem tracks_updateState (ρ0 ρ ρ' : Val) (s : RegState) (ch : List (Txt × 
 
 /-! ### addresses -/
 
+/-- the displacement of a memory operand: a symbol denotes an unknown but fixed address constant `σ name`
+    (the same for every occurrence of the symbol); a number denotes itself, an absent displacement 0 -/
+def disp (σ : Txt → Int) (m : Mem) : Int :=
+  match m.sym with
+  | some n => σ n
+  | none => m.offset.getD 0
+
 /-- the concrete address of a `base (+ index·scale) + displacement` memory operand -/
-def addr (m : Mem) (ρ : Val) : Int :=
+def addr (σ : Txt → Int) (m : Mem) (ρ : Val) : Int :=
   (m.base.map fun b => ρ (fullName b)).getD 0 + (m.index.map fun i => ρ (fullName i)).getD 0 * m.scale +
-    m.offset.getD 0
+    disp σ m
+
+theorem dispDelta_sound (σ : Txt → Int) (st ld : Mem) (a : Int) (h : dispDelta st ld = some a) :
+    disp σ ld = disp σ st + a := by
+  unfold dispDelta at h
+  unfold disp
+  cases hs : st.sym with
+  | none =>
+    cases hl : ld.sym with
+    | none => simp only [hs, hl, Option.some.injEq] at h; subst h; simp only; omega
+    | some b => simp [hs, hl] at h
+  | some a' =>
+    cases hl : ld.sym with
+    | none => simp [hs, hl] at h
+    | some b =>
+      simp only [hs, hl] at h
+      by_cases heq : a' = b
+      · simp only [heq, beq_self_eq_true, if_true, Option.some.injEq] at h
+        subst h; simp [heq]
+      · simp [heq] at h
 
 /-- the base part of `is_memload`: `some δ` = "the load's base is the store's base plus δ" -/
 def baseDelta (st ld : Mem) (s : RegState) : Option Int :=
@@ -249,9 +275,9 @@ theorem isMemload_eq (st : Mem) (i : Ins) (s : RegState) :
     isMemload st i s = (i.src ++ i.srcDst).any fun o =>
       match o with
       | .mem ld =>
-        (match baseDelta st ld s, indexDelta st ld s with
-        | some b, some x => (ld.offset.getD 0) - (st.offset.getD 0) + b + x == 0
-        | _, _ => false)
+        (match dispDelta st ld, baseDelta st ld s, indexDelta st ld s with
+        | some a0, some b, some x => a0 + b + x == 0
+        | _, _, _ => false)
       | _ => false := by
   unfold isMemload
   congr 1
@@ -335,26 +361,30 @@ theorem indexDelta_sound (ρ0 ρ : Val) (st ld : Mem) (s : RegState) (h : Tracks
 /-- **the store→load test is semantically sound**: if the tracked state describes the current
     valuation `ρ` relative to the valuation `ρ0` at the store, and `is_memload` answers yes, then
     some memory source operand of the instruction has exactly the store's address -/
-theorem isMemload_sound (ρ0 ρ : Val) (st : Mem) (i : Ins) (s : RegState) (h : Tracks ρ0 ρ s)
+theorem isMemload_sound (σ : Txt → Int) (ρ0 ρ : Val) (st : Mem) (i : Ins) (s : RegState) (h : Tracks ρ0 ρ s)
     (hm : isMemload st i s = true) :
-    ∃ ld, Op.mem ld ∈ i.src ++ i.srcDst ∧ addr st ρ0 = addr ld ρ := by
+    ∃ ld, Op.mem ld ∈ i.src ++ i.srcDst ∧ addr σ st ρ0 = addr σ ld ρ := by
   rw [isMemload_eq, List.any_eq_true] at hm
   obtain ⟨o, ho, hbody⟩ := hm
   cases o with
   | mem ld =>
     refine ⟨ld, ho, ?_⟩
     simp only at hbody
+    cases ha : dispDelta st ld with
+    | none => simp [ha] at hbody
+    | some a0 =>
     cases hb : baseDelta st ld s with
-    | none => simp [hb] at hbody
+    | none => simp [ha, hb] at hbody
     | some b =>
       cases hx : indexDelta st ld s with
-      | none => simp [hb, hx] at hbody
+      | none => simp [ha, hb, hx] at hbody
       | some x =>
-        simp only [hb, hx, beq_iff_eq] at hbody
+        simp only [ha, hb, hx, beq_iff_eq] at hbody
+        have h0 := dispDelta_sound σ st ld a0 ha
         have h1 := baseDelta_sound ρ0 ρ st ld s h b hb
         have h2 := indexDelta_sound ρ0 ρ st ld s h x hx
         unfold addr
-        rw [h1, h2]
+        rw [h0, h1, h2]
         omega
   | reg r => simp at hbody
   | flag n => simp at hbody
@@ -364,11 +394,11 @@ theorem isMemload_sound (ρ0 ρ : Val) (st : Mem) (i : Ins) (s : RegState) (h : 
     instruction `c` of the scanned suffix such that, for every valuation `ρ` the start state
     describes and every execution of the instructions before `c` followed by `c`'s own (pre-access)
     changes, a memory source operand of `c` has exactly the store's address -/
-theorem scanMem_sound (isa : Isa) (m : Mem) (rest : List Ins) (l : Nat) (tg : Tag) :
+theorem scanMem_sound (σ : Txt → Int) (isa : Isa) (m : Mem) (rest : List Ins) (l : Nat) (tg : Tag) :
     ∀ s, (l, tg) ∈ scanMem isa m s rest →
       ∃ j c, rest[j]? = some c ∧ c.line = l ∧ tg = Tag.storeLoad ∧
         ∀ ρ0 ρ ρj ρ', Tracks ρ0 ρ s → ExecSeq ρ (rest.take j) ρj → Exec ρj c.changes ρ' →
-          ∃ ld, Op.mem ld ∈ c.src ++ c.srcDst ∧ addr m ρ0 = addr ld ρ' := by
+          ∃ ld, Op.mem ld ∈ c.src ++ c.srcDst ∧ addr σ m ρ0 = addr σ ld ρ' := by
   induction rest with
   | nil => intro s h; simp [scanMem] at h
   | cons i rest ih =>
@@ -381,7 +411,7 @@ theorem scanMem_sound (isa : Isa) (m : Mem) (rest : List Ins) (l : Nat) (tg : Ta
           then [(i.line, Tag.storeLoad)] else []) →
           ∃ j c, (i :: rest)[j]? = some c ∧ c.line = l ∧ tg = Tag.storeLoad ∧
             ∀ ρ0 ρ ρj ρ', Tracks ρ0 ρ s → ExecSeq ρ ((i :: rest).take j) ρj → Exec ρj c.changes ρ' →
-              ∃ ld, Op.mem ld ∈ c.src ++ c.srcDst ∧ addr m ρ0 = addr ld ρ' := by
+              ∃ ld, Op.mem ld ∈ c.src ++ c.srcDst ∧ addr σ m ρ0 = addr σ ld ρ' := by
         intro hx
         by_cases h3 : isMemload m i (updateState s i.changes) = true
         · simp only [h3, if_true, List.mem_singleton, Prod.mk.injEq] at hx
@@ -389,7 +419,7 @@ theorem scanMem_sound (isa : Isa) (m : Mem) (rest : List Ins) (l : Nat) (tg : Ta
           intro ρ0 ρ ρj ρ' ht hseq hex
           simp only [List.take_zero] at hseq
           cases hseq
-          exact isMemload_sound ρ0 ρ' m i _ (tracks_updateState ρ0 ρ ρ' s _ ht hex) h3
+          exact isMemload_sound σ ρ0 ρ' m i _ (tracks_updateState ρ0 ρ ρ' s _ ht hex) h3
         · simp [h3] at hx
       by_cases h2 : isMemstore m i = true
       · simp only [h2, if_true] at h
